@@ -26,11 +26,26 @@ import translate_ws
 OUT = os.path.join(os.path.dirname(HERE), "lean", "Wormhole", "GeneratedWsBody.lean")
 
 
+def namedtuples(path):
+    """`X = namedtuple("X", [f1, f2, ...])` of server.py -> {X: [fields in declared order]}"""
+    res = {}
+    for n in ast.parse(open(path).read(), path).body:
+        if isinstance(n, ast.Assign) and len(n.targets) == 1 and isinstance(n.targets[0], ast.Name) \
+                and isinstance(n.value, ast.Call) and getattr(n.value.func, "id", None) == "namedtuple" and len(n.value.args) == 2:
+            try:
+                res[n.targets[0].id] = list(ast.literal_eval(n.value.args[1]))
+            except Exception:
+                pass
+    return res
+
+
 class Body:
-    def __init__(self, func):
+    def __init__(self, func, records=None):
         self.f = func
         self.params = [a.arg for a in func.args.args]
         self.locals = set()
+        self.record_types = records or {}     # constructor name -> declared fields
+        self.records = {}                     # local name -> declared fields of the record it holds
 
     def err(self, what, node):
         raise TranslateError("%s line %d: %s: %s" % (self.f.name, getattr(node, "lineno", 0), what, ast.unparse(node)[:70]))
@@ -53,6 +68,8 @@ class Body:
                 return ".rx"
             if n.id in self.locals:
                 return ".local_ %s" % lean_str(n.id)
+            if n.id in getattr(self, "fns", set()):
+                return ".fn %s" % lean_str(n.id)
             self.err("unknown name", n)
         if translate_ws._is_self_attr(n):
             return ".attr %s" % lean_str(n.attr)
@@ -83,6 +100,13 @@ class Body:
                 return ".ne (%s) (%s)" % (self.expr(l), self.expr(r))
             if isinstance(op, ast.Eq):
                 return ".eq (%s) (%s)" % (self.expr(l), self.expr(r))
+        if isinstance(n, ast.Call) and isinstance(n.func, ast.Name) and n.func.id == "sorted" and len(n.args) == 1 and not n.keywords:
+            return ".sorted (%s)" % self.expr(n.args[0])
+        if isinstance(n, ast.ListComp) and len(n.generators) == 1 and not n.generators[0].ifs \
+                and isinstance(n.generators[0].target, ast.Name) and isinstance(n.elt, ast.Dict) and len(n.elt.keys) == 1 \
+                and isinstance(n.elt.keys[0], ast.Constant) and isinstance(n.elt.keys[0].value, str) \
+                and isinstance(n.elt.values[0], ast.Name) and n.elt.values[0].id == n.generators[0].target.id:
+            return ".dictEach %s (%s)" % (lean_str(n.elt.keys[0].value), self.expr(n.generators[0].iter))
         self.err("unsupported expression", n)
 
     def call(self, n, into):
@@ -92,7 +116,14 @@ class Body:
             return None
         if n.keywords:
             self.err("keyword arguments in a call", n)
-        args = ", ".join(self.expr(a) for a in n.args)
+        parts = []
+        for a in n.args:
+            if isinstance(a, ast.Name) and a.id in self.records:
+                # a record built by a keyword constructor: passed as its fields, in the declared order of the namedtuple
+                parts += [".local_ %s" % lean_str("%s.%s" % (a.id, f)) for f in self.records[a.id]]
+            else:
+                parts.append(self.expr(a))
+        args = ", ".join(parts)
         tgt = "none" if into is None else "(some (%s, %s))" % ("true" if into[0] else "false", lean_str(into[1]))
         return ".call %s %s %s [%s]" % (tgt, lean_str(n.func.value.attr), lean_str(n.func.attr), args)
 
@@ -116,11 +147,30 @@ class Body:
             into = (True, tg.attr) if translate_ws._is_self_attr(tg) else ((False, tg.id) if isinstance(tg, ast.Name) else None)
             if into is None:
                 self.err("unsupported assignment target", st)
+            v = st.value
+            if not into[0] and isinstance(v, ast.Call) and isinstance(v.func, ast.Name) and v.func.id in self.record_types \
+                    and not v.args and v.keywords:
+                fields = self.record_types[v.func.id]
+                if sorted(k.arg for k in v.keywords) != sorted(fields):
+                    self.err("constructor keywords are not the declared fields %s" % fields, st)
+                self.records[into[1]] = fields
+                out = []
+                for k in v.keywords:        # evaluated in the order written
+                    out.append(".setLocal %s (%s)" % (lean_str("%s.%s" % (into[1], k.arg)), self.expr(k.value)))
+                return ", ".join(out)
             c = self.call(st.value, into)
             if c is not None:
                 if not into[0]:
                     self.locals.add(into[1])
                 return c
+            if not into[0] and isinstance(v, ast.Call) and isinstance(v.func, ast.Name) and v.func.id == "sorted" \
+                    and len(v.args) == 1 and not v.keywords:
+                tmp = "%s#arg" % into[1]
+                c = self.call(v.args[0], (False, tmp))
+                if c is not None:
+                    self.locals.add(tmp)
+                    self.locals.add(into[1])
+                    return "%s, .setLocal %s (.sorted (.local_ %s))" % (c, lean_str(into[1]), lean_str(tmp))
             e = self.expr(st.value)
             if into[0]:
                 return ".setAttr %s (%s)" % (lean_str(into[1]), e)
@@ -136,6 +186,40 @@ class Body:
             if c is not None:
                 return c
             self.err("unsupported expression statement", st)
+        if isinstance(st, ast.FunctionDef) and not st.decorator_list:
+            params = [a.arg for a in st.args.args]
+            body = [b for b in st.body if not self.is_doc(b) and not isinstance(b, ast.Pass)]
+            # def f(p): self.send("ty", k=p.field, ...)
+            if len(params) == 1 and len(body) == 1 and isinstance(body[0], ast.Expr) and isinstance(body[0].value, ast.Call) \
+                    and translate_ws._is_self_attr(body[0].value.func) and body[0].value.func.attr == "send" \
+                    and len(body[0].value.args) == 1 and isinstance(body[0].value.args[0], ast.Constant):
+                kws = []
+                for k in body[0].value.keywords:
+                    v = k.value
+                    if not (isinstance(v, ast.Attribute) and isinstance(v.value, ast.Name) and v.value.id == params[0]):
+                        self.err("unsupported argument of send in a nested function", v)
+                    kws.append("(%s, %s)" % (lean_str(k.arg), lean_str(v.attr)))
+                self.fns = getattr(self, "fns", set()) | {st.name}
+                return ".defSend %s %s %s [%s]" % (lean_str(st.name), lean_str(params[0]), lean_str(body[0].value.args[0].value),
+                                                   ", ".join(kws))
+            # def f(): self.a = e; ...
+            if not params and body and all(isinstance(b, ast.Assign) and len(b.targets) == 1 and translate_ws._is_self_attr(b.targets[0])
+                                           for b in body):
+                rs = ", ".join("(%s, %s)" % (lean_str(b.targets[0].attr), self.expr(b.value)) for b in body)
+                self.fns = getattr(self, "fns", set()) | {st.name}
+                return ".defStop %s [%s]" % (lean_str(st.name), rs)
+            self.err("unsupported nested function", st)
+        if isinstance(st, ast.For) and not st.orelse and isinstance(st.target, ast.Name) and len(st.body) == 1:
+            it, b = st.iter, st.body[0]
+            if isinstance(it, ast.Call) and isinstance(it.func, ast.Attribute) and translate_ws._is_self_attr(it.func.value) \
+                    and it.func.value.attr in ("_app", "_mailbox") and not it.keywords \
+                    and isinstance(b, ast.Expr) and isinstance(b.value, ast.Call) and isinstance(b.value.func, ast.Name) \
+                    and b.value.func.id in getattr(self, "fns", set()) and len(b.value.args) == 1 and not b.value.keywords \
+                    and isinstance(b.value.args[0], ast.Name) and b.value.args[0].id == st.target.id:
+                args = ", ".join(self.expr(a) for a in it.args)
+                return ".forCall %s %s %s [%s] %s" % (lean_str(st.target.id), lean_str(it.func.value.attr), lean_str(it.func.attr),
+                                                      args, lean_str(b.value.func.id))
+            self.err("unsupported for loop", st)
         if isinstance(st, ast.Try) and not st.orelse and not st.finalbody:
             hs = []
             for h in st.handlers:
@@ -162,6 +246,7 @@ def generate():
         raise TranslateError("class WebSocketServer not found")
     funcs = {f.name: f for f in cls[0].body if isinstance(f, ast.FunctionDef)}
     _, hs = translate_ws.translate(path)
+    records = namedtuples(os.path.join(SRC, "server.py"))
     L = ["/- GENERATED by harness/translate_wsbody.py from /repo/src/wormhole_mailbox_server/server_websocket.py -- do not edit.",
          "   The bodies of the handle_* methods in the statement language of PyWs.lean (`none` = not expressible in it). -/",
          "import Wormhole.PyWs", "", "namespace Wormhole.GenWsBody", "open Wormhole.PyWs", ""]
@@ -169,7 +254,7 @@ def generate():
     for h, _ in hs:
         f = funcs[h]
         try:
-            b = Body(f)
+            b = Body(f, records)
             txt = b.stmts(f.body)
             L.append("/-- `%s(%s)` -/" % (h, ", ".join(b.params)))
             L.append("def %s : Option (List PS) := some\n  %s" % (h, txt))
@@ -179,6 +264,11 @@ def generate():
             L.append("def %s : Option (List PS) := none" % h)
             info[h] = "not translated: %s" % e
         L.append("")
+    L.append("/-- the handlers `onMessage` dispatches to, by name -/")
+    L.append("def table : List (String × Option (List PS)) := [")
+    L.append(",\n".join("  (%s, %s)" % (lean_str(h), h) for h, _ in hs))
+    L.append("]")
+    L.append("")
     L.append("end Wormhole.GenWsBody")
     return "\n".join(L) + "\n", info
 
